@@ -115,6 +115,10 @@ static void mode_models() {
             double nc = std::sqrt(2.0 / 3.0) * std::pow(PI * R / g, 1.5), fc = nc * f0;
             // choose the frequency window so that it spans well below and well above the cutoff
             fmax = fc * r.logu(12, 60) * 2;  // samples go up to fmax/2
+            // one case in four: very wide gap (comparable to the bending radius) and frequencies thousands of times the cutoff, where
+            // hundreds of plate modes contribute: the sum over modes must not be cut short
+            bool far = (c / 6) % 4 == 1;
+            if (far) { n = 48 + n % 32; g = R / r.logu(0.5, 4); nc = std::sqrt(2.0 / 3.0) * std::pow(PI * R / g, 1.5); fc = nc * f0; fmax = fc * r.logu(3000, 20000) * 2; M.ev("pp_far_above_cutoff_cases"); }
             ds << "parallelplates n=" << n << " g=" << g << " R=" << R << " fc=" << fc << " fmax=" << fmax;
             M.begin_case(c, ds.str());
             ParallelPlatesCSR zp(n, (frequency_t)f0, (frequency_t)fmax, g);
